@@ -73,44 +73,57 @@ theorem updLay_lay (g : Geo) (i : Nat) (f : Layer → Layer) (j : Nat) (h : i < 
 def renamedLayer (g : Geo) (old new : Name) (i : Nat) : Geo :=
   { g.updLay i (fun l => { l with name := new }) with layerD := (g.layerD.del old).set new i }
 
-theorem renamedLayer_geoInv0_layersOK (g : Geo) (old new : Name) (i : Nat)
+theorem renamedLayer_lay (g : Geo) (old new : Name) (i : Nat) (hilt : i < g.L.size) (j : Nat) :
+    (renamedLayer g old new i).lay j = if i = j then { g.lay j with name := new } else g.lay j :=
+  updLay_lay g i _ j hilt
+
+/-- the structural half: registries (the layer dictionary is re-keyed in place) -/
+theorem renamedLayer_struct (g : Geo) (old new : Name) (i : Nat)
     (hk : g.layerD.get? old = some i) (hnew : g.layerD.contains new = false ∨ new = old)
-    (h0 : g.geoInv0 = true) (hl : g.layersOK = true) :
-    (renamedLayer g old new i).geoInv0 = true ∧ (renamedLayer g old new i).layersOK = true := by
+    (h0 : g.geoInv0 = true) : (renamedLayer g old new i).geoInv0 = true := by
   simp only [geoInv0, Bool.and_eq_true] at h0
   obtain ⟨⟨⟨⟨⟨⟨hh, hr⟩, hnc⟩, hcc⟩, hnb⟩, hcn⟩, ho⟩ := h0
   have hr' := hr
   simp only [registriesOK, Bool.and_eq_true] at hr'
   have hil : i ∈ g.layerlist := regOK_mem hr'.1.1.2 hk
   have hilt : i < g.L.size := heapOK_lays hh i hil
-  have hlay : ∀ j, (renamedLayer g old new i).lay j = if i = j then { g.lay j with name := new } else g.lay j := by
-    intro j; exact updLay_lay g i _ j hilt
-  constructor
-  · simp only [geoInv0, Bool.and_eq_true]
-    refine ⟨⟨⟨⟨⟨⟨?_, ?_⟩, hnc⟩, hcc⟩, hnb⟩, hcn⟩, ho⟩
-    · have hlays := heapOK_lays hh
-      simp only [heapOK, Bool.and_eq_true] at hh ⊢
-      refine ⟨⟨hh.1.1, ?_⟩, hh.2⟩
-      have : (renamedLayer g old new i).L.size = g.L.size := by simp [renamedLayer, updLay]
-      simp only [List.all_eq_true, decide_eq_true_eq, this]
-      exact hlays
-    · simp only [registriesOK, Bool.and_eq_true]
-      refine ⟨⟨⟨hr'.1.1.1, ?_⟩, hr'.1.2⟩, hr'.2⟩
-      show regOK g.layerlist ((g.layerD.del old).set new i) (fun j => ((renamedLayer g old new i).lay j).name) = true
-      apply regOK_rename g.layerlist g.layerD (fun j => (g.lay j).name) _ old new i hr'.1.1.2 hk hnew
-      · simp only [hlay, if_true]
-      · intro j _ hji; simp only [hlay, if_neg (Ne.symm hji)]
-  · simp only [layersOK, List.all_eq_true, decide_eq_true_eq] at hl ⊢
-    intro c hc
-    have := hl c hc
-    have hb : ∀ l, ((renamedLayer g old new i).lay l).bottom = (g.lay l).bottom := by
-      intro l; rw [hlay]; split <;> rfl
-    simp only [expectedNumLayers] at this ⊢
-    have e1 : (renamedLayer g old new i).col c = g.col c := rfl
-    have e2 : (renamedLayer g old new i).layerlist = g.layerlist := rfl
-    rw [e1, e2]
-    simp only [hb]
-    exact this
+  have hlay := renamedLayer_lay g old new i hilt
+  simp only [geoInv0, Bool.and_eq_true]
+  refine ⟨⟨⟨⟨⟨⟨?_, ?_⟩, hnc⟩, hcc⟩, hnb⟩, hcn⟩, ho⟩
+  · have hlays := heapOK_lays hh
+    simp only [heapOK, Bool.and_eq_true] at hh ⊢
+    refine ⟨⟨hh.1.1, ?_⟩, hh.2⟩
+    have : (renamedLayer g old new i).L.size = g.L.size := by simp [renamedLayer, updLay]
+    simp only [List.all_eq_true, decide_eq_true_eq, this]
+    exact hlays
+  · simp only [registriesOK, Bool.and_eq_true]
+    refine ⟨⟨⟨hr'.1.1.1, ?_⟩, hr'.1.2⟩, hr'.2⟩
+    show regOK g.layerlist ((g.layerD.del old).set new i) (fun j => ((renamedLayer g old new i).lay j).name) = true
+    apply regOK_rename g.layerlist g.layerD (fun j => (g.lay j).name) _ old new i hr'.1.1.2 hk hnew
+    · simp only [hlay, if_true]
+    · intro j _ hji; simp only [hlay, if_neg (Ne.symm hji)]
+
+theorem renamedLayer_geoInv0_layersOK (g : Geo) (old new : Name) (i : Nat)
+    (hk : g.layerD.get? old = some i) (hnew : g.layerD.contains new = false ∨ new = old)
+    (h0 : g.geoInv0 = true) (hl : g.layersOK = true) :
+    (renamedLayer g old new i).geoInv0 = true ∧ (renamedLayer g old new i).layersOK = true := by
+  refine ⟨renamedLayer_struct g old new i hk hnew h0, ?_⟩
+  have hh : g.heapOK = true := by simp only [geoInv0, Bool.and_eq_true] at h0; exact h0.1.1.1.1.1.1
+  have hr : g.registriesOK = true := by simp only [geoInv0, Bool.and_eq_true] at h0; exact h0.1.1.1.1.1.2
+  simp only [registriesOK, Bool.and_eq_true] at hr
+  have hilt : i < g.L.size := heapOK_lays hh i (regOK_mem hr.1.1.2 hk)
+  have hlay := renamedLayer_lay g old new i hilt
+  simp only [layersOK, List.all_eq_true, decide_eq_true_eq] at hl ⊢
+  intro c hc
+  have := hl c hc
+  have hb : ∀ l, ((renamedLayer g old new i).lay l).bottom = (g.lay l).bottom := by
+    intro l; rw [hlay]; split <;> rfl
+  simp only [expectedNumLayers] at this ⊢
+  have e1 : (renamedLayer g old new i).col c = g.col c := rfl
+  have e2 : (renamedLayer g old new i).layerlist = g.layerlist := rfl
+  rw [e1, e2]
+  simp only [hb]
+  exact this
 
 /-- `rename_layer(old, new)` to a name no other layer has keeps the whole invariant -/
 theorem renameLayer_geoInv (g g' : Geo) (old new : Name) (hd : g.renameLayer [old] [new] = .ok g')
